@@ -2,11 +2,8 @@
     every entry carries at least one bit and has its baseline inside the table (which is what the "avoid zero bits"
     option of the table builder is for). *)
 Require Import Zrs.lib.RsPrelude Zrs.model.BitIO Zrs.model.BitStream Zrs.model.FseDec Zrs.model.HufDec Zrs.model.BlockDec Zrs.model.SeqEnc.
-Require Import Zrs.proofs.C12_Stream Zrs.proofs.C12_SeqStream.
+Require Import Zrs.proofs.C12_Stream Zrs.proofs.C12_SeqStream Zrs.proofs.C12_AvoidBits.
 Open Scope Z_scope.
-
-Definition entries_carry_a_bit (D : fse_table) : Prop :=
-  Forall (fun e => 1 <= e_bits e /\ e_base e < t_len D) (t_decode D).
 
 Theorem derived_states_carry_a_bit D syms : table_wf D -> entries_carry_a_bit D -> Forall (covers D) syms ->
   (forall sym, In sym syms -> (1 <= es_bits (et_start (enc_of_dec D) sym))%nat /\
